@@ -49,6 +49,14 @@ def find_memos(fn, module_containers):
                 if isinstance(t, ast.Name):
                     local_containers.add(t.id)
     out = []
+    # stores through the library's helper:  _add_to_cache(D, K, V)
+    for n in ast.walk(fn):
+        if isinstance(n, ast.Call) and call_name(n) == '_add_to_cache' and len(n.args) >= 3 and isinstance(n.args[0], ast.Name) \
+                and n.args[0].id in module_containers:
+            fake = ast.Assign(targets=[ast.Subscript(value=n.args[0], slice=n.args[1], ctx=ast.Store())], value=n.args[2])
+            ast.copy_location(fake, n)
+            fake.lineno = n.lineno
+            out.append((n.args[0].id, n.args[1], fake, n.args[2]))
     for n in ast.walk(fn):
         if not isinstance(n, ast.Assign):
             continue
@@ -203,3 +211,30 @@ def shared_alias_mutations(fn, module_names):
             out.append(('%s aliases an entry of the shared table %s (%s) and is then changed in place (%s): the change stays in the table '
                         'for every later call' % (tgt, root, stmt_key(alias[tgt][0][1]), stmt_key(n)), n))
     return out
+
+
+def scan_files(repo, rels, skip=()):
+    """memo transparency and shared-entry mutation over every function of the given files:
+    [(rel, qualname, rule, message, node)]"""
+    from .props.c19 import module_mutables
+    out = []
+    n_fn = 0
+    for rel in rels:
+        if not rel.endswith('.py'):
+            continue
+        try:
+            mod = repo.module(rel)
+        except Exception:
+            continue
+        mm = set(module_mutables(mod)) | {t.id for st in mod.tree.body if isinstance(st, ast.Assign) for t in st.targets
+                                          if isinstance(t, ast.Name) and isinstance(st.value, (ast.Constant,)) and st.value.value is None}
+        for q, fn in mod.functions.items():
+            if (rel, q) in skip or q.split('.')[-1] in ('__init__',):
+                continue
+            n_fn += 1
+            res, memos = analyse(fn, mm)
+            for rule, msg, node in res:
+                out.append((rel, q, rule, msg, node))
+            for msg, node in shared_alias_mutations(fn, mm):
+                out.append((rel, q, 'ALIAS', msg, node))
+    return out, n_fn
